@@ -2,6 +2,7 @@ package main
 
 import (
 	"bytes"
+	"fmt"
 	"os"
 	"path/filepath"
 
@@ -17,6 +18,7 @@ func init() {
 			{Name: "write-direction", Quick: 2500, Thorough: 100000, Run: c06Write},
 			{Name: "read-direction", Quick: 2500, Thorough: 100000, Run: c06Read},
 			{Name: "golden-files", Quick: 1, Thorough: 1, Run: c06Golden, Serial: true},
+			{Name: "65536-chunks-both-cookies", Quick: 2, Thorough: 6, Run: c06Huge},
 		},
 	})
 }
@@ -249,4 +251,72 @@ func c06Golden(c *Ctx) {
 		c.Eval(1)
 		c.Distinct(mix(uint64(100+i), fs.Hash()))
 	}
+}
+
+// c06Huge: all 65536 chunks present (the chunk-count field of the run-capable cookie is 0xFFFF),
+// in both directions and with both cookies.
+func c06Huge(c *Ctx) {
+	r := c.R
+	m := NewISet()
+	for k := uint64(0); k < 65536; k++ {
+		lo := k<<16 | r.Range(0, 60000)
+		m.AddRange(lo, lo+r.Range(0, 40))
+	}
+	runCookie := c.CaseSeed%2 == 0
+	c.Step("65536 chunks, run-capable cookie=%v", runCookie)
+	c.Distinct(mix(m.Hash(), b2u(runCookie)))
+	// read direction: independent encoder
+	ch := encChoice{ForceRunCookie: runCookie, RunP: 0}
+	if runCookie {
+		ch.RunP = 0.5
+	}
+	wire := specEncode(r, m, ch)
+	for _, name := range []string{"ReadFrom", "FromBuffer"} {
+		dst := roaring.New()
+		var n int64
+		var err error
+		if c.Guard("read/"+name+"/65536-chunks", func() {
+			if name == "ReadFrom" {
+				n, err = dst.ReadFrom(bytes.NewReader(wire))
+			} else {
+				n, err = dst.FromBuffer(wire)
+			}
+		}) {
+			return
+		}
+		if err != nil || n != int64(len(wire)) {
+			c.Fail("read/"+name+"/65536-chunks", "%s of a conformant 65536-chunk stream (run cookie=%v): n=%d of %d err=%v", name, runCookie, n, len(wire), err)
+			return
+		}
+		if d := checkEq(dst, m); d != "" {
+			c.Fail("read/"+name+"/65536-chunks/content", "%s", d)
+			return
+		}
+		c.Eval(2)
+	}
+	// write direction
+	b := roaring.New()
+	for _, v := range m.Intervals() {
+		b.AddRange(v.Lo, v.Hi+1)
+	}
+	if runCookie {
+		b.RunOptimize()
+	} else {
+		// no run chunk at all: rebuild from values
+		b = roaring.New()
+		m.ForEach(func(x uint64) bool { b.Add(uint32(x)); return true })
+	}
+	out, err := b.ToBytes()
+	if err != nil {
+		c.Fail("write/ToBytes-error", "%v", err)
+		return
+	}
+	ds, used, info, derr := specDecode(out)
+	if derr != nil || used != len(out) || len(info.Strict) > 0 || !ds.Equal(m) {
+		c.Fail("write/65536-chunks", "independent decoder on the library's 65536-chunk stream: err=%v used=%d/%d strict=%v equal=%v", derr, used, len(out), firstN(info.Strict, 3), ds != nil && ds.Equal(m))
+		return
+	}
+	c.Count(fmt.Sprintf("huge_cookie_%d", info.Cookie))
+	c.Eval(1)
+	_ = wire[len(wire)-1]
 }
